@@ -540,7 +540,21 @@ impl std::io::Read for ScriptRead {
             }
             Some(Item::WouldBlock) => Err(Error::new(ErrorKind::WouldBlock, "scripted would-block")),
             Some(Item::Interrupted) => Err(Error::new(ErrorKind::Interrupted, "scripted interrupt")),
-            Some(Item::Other) => Err(Error::new(ErrorKind::BrokenPipe, "scripted error")),
+            Some(Item::Other) => {
+                // every kind that is neither would-block, interrupted nor unexpected-eof is an "other" error
+                const KINDS: [ErrorKind; 8] = [
+                    ErrorKind::BrokenPipe,
+                    ErrorKind::TimedOut,
+                    ErrorKind::ConnectionReset,
+                    ErrorKind::Other,
+                    ErrorKind::InvalidData,
+                    ErrorKind::PermissionDenied,
+                    ErrorKind::NotConnected,
+                    ErrorKind::ConnectionAborted,
+                ];
+                let k = KINDS[self.0.idx.get() % KINDS.len()];
+                Err(Error::new(k, "scripted error"))
+            }
             Some(Item::EofOnce) => Ok(0),
         }
     }
@@ -992,15 +1006,28 @@ pub fn new_reader<'a>(env: &'a ReaderEnv, src: Src, buf: RBuf) -> ReaderBox<'a> 
 
 struct RunEncode<'a> {
     p: &'a [u8],
-    by_ref: bool,
+    /// 0 = by value, 1 = by reference, 2 = iterator whose size hint over-estimates, 3 = unknown upper bound
+    mode: u8,
 }
 impl<'a> CapVisitor for RunEncode<'a> {
     type Out = Result<Vec<u8>, ()>;
     fn visit<B: Buffer + BuilderFor + 'static>(self) -> Self::Out {
-        let r = if self.by_ref {
-            encode::<B>(self.p.iter())
-        } else {
-            encode::<B>(self.p.iter().copied())
+        let r = match self.mode {
+            1 => encode::<B>(self.p.iter()),
+            2 => {
+                // upper bound of the hint is 3x the real length (+8)
+                let n = self.p.len();
+                encode::<B>(self.p.iter().copied().chain(std::iter::repeat(0u8).take(2 * n + 8)).enumerate().filter(move |(i, _)| *i < n).map(|(_, b)| b))
+            }
+            3 => {
+                let mut k = 0usize;
+                let p = self.p;
+                encode::<B>(std::iter::from_fn(move || {
+                    k += 1;
+                    p.get(k - 1).copied()
+                }))
+            }
+            _ => encode::<B>(self.p.iter().copied()),
         };
         match r {
             Ok(b) => Ok(b.to_vec()),
@@ -1011,7 +1038,25 @@ impl<'a> CapVisitor for RunEncode<'a> {
 
 /// buffer encoder: Ok(frame) or Err(()) = OutOfMemory
 pub fn run_encode(k: BufKind, p: &[u8], by_ref: bool) -> Result<Vec<u8>, ()> {
-    dispatch_buf(k, RunEncode { p, by_ref })
+    dispatch_buf(k, RunEncode { p, mode: by_ref as u8 })
+}
+
+/// buffer encoder fed by an iterator of the given kind (see RunEncode::mode)
+pub fn run_encode_mode(k: BufKind, p: &[u8], mode: u8) -> Result<Vec<u8>, ()> {
+    dispatch_buf(k, RunEncode { p, mode })
+}
+
+/// size_hint() of the iterator encoder over a slice source, and the first `n` bytes produced over an
+/// unbounded source (`iter::repeat`)
+pub fn encoder_size_hint(p: &[u8]) -> (usize, Option<usize>) {
+    encode_streaming(p.iter().copied()).size_hint()
+}
+
+pub fn encode_unbounded_prefix(b: u8, n: usize) -> ((usize, Option<usize>), Vec<u8>) {
+    let mut e = encode_streaming(std::iter::repeat(b));
+    let h = e.size_hint();
+    let v: Vec<u8> = e.by_ref().take(n).collect();
+    (h, v)
 }
 
 /// A source iterator that is deliberately *not* fused: after its first None it yields junk again.
